@@ -22,6 +22,11 @@ DROPPED = ["docstrings", "type annotations", "decorators other than staticmethod
            "text of f-strings that depend on symbolic values (opaque strings)", "print calls"]
 
 
+def REPLAY_DIR():
+    ev = os.environ.get("VERIF_EVIDENCE_DIR")
+    return os.path.join(os.path.dirname(ev), "replay") if ev else os.path.join(VERIF, "replay")
+
+
 def _slug(s):
     return re.sub(r"[^A-Za-z0-9_.-]+", "_", s)[:120]
 
@@ -190,13 +195,19 @@ def run_property(args):
         print(f"baseline for {prop}: {len(bl[prop])} clauses")
 
     # ---- classify refutations: replay each distinct (contract, clause) once per model
-    from pyvc.replay import concrete_run, write_replay
+    from pyvc.replay import concrete_run, concrete_search, write_replay
     violations, known_hits, artefacts = [], [], []
     seen_clause = {}
+    tried = {}
     for cid, label, trace, ob, choices in refuted:
         c = REGISTRY[cid]
         key = f"{cid} :: {label}"
-        st, text = concrete_run(c, ob.model or {}, choices, label)
+        key = f"{cid} :: {label}"
+        if key in seen_clause and (cid, label) in tried and tried[(cid, label)] >= 6:
+            continue
+        tried[(cid, label)] = tried.get((cid, label), 0) + 1
+        st, text, vals = concrete_search(c, ob.model or {}, choices, label)
+        ob.model = vals
         kf = match_known(known, prop, cid, label, c, ob, choices)
         rec = dict(contract=cid, label=label, status=st, model=ob.model, choices=choices,
                    detail=ob.detail, text=text, known=kf)
@@ -232,7 +243,7 @@ def run_property(args):
         if kf:
             lines.append(f"KNOWN-FINDING: property={prop} {kf['id']} {kf['what']}")
             continue
-        path = os.path.join(VERIF, "replay", prop, _slug(v["obligation"]) + ".py")
+        path = os.path.join(REPLAY_DIR(), prop, _slug(v["obligation"]) + ".py")
         if v.get("replay_script"):
             os.makedirs(os.path.dirname(path), exist_ok=True)
             with open(path, "w") as f:
@@ -243,7 +254,7 @@ def run_property(args):
         rc = 1
     for rec in violations:
         c = REGISTRY[rec["contract"]]
-        path = os.path.join(VERIF, "replay", prop, _slug(rec["contract"].split("::")[-1] + "__" + rec["label"]) + ".py")
+        path = os.path.join(REPLAY_DIR(), prop, _slug(rec["contract"].split("::")[-1] + "__" + rec["label"]) + ".py")
         data = dict(property=prop, module=mod_of[rec["contract"]], contract=rec["contract"],
                     label=rec["label"], values=rec["model"] or {}, choices=rec["choices"],
                     solver=f"z3 sat (counter-model of path condition and negated clause); {rec['detail']}")
@@ -284,8 +295,9 @@ def run_property(args):
         wall_s=round(wall, 2),
         violations=len([l for l in lines if l.startswith("VIOLATION")]),
     )
-    os.makedirs(os.path.join(VERIF, "evidence"), exist_ok=True)
-    with open(os.path.join(VERIF, "evidence", f"{prop}.json"), "w") as f:
+    evdir = os.environ.get("VERIF_EVIDENCE_DIR") or os.path.join(VERIF, "evidence")
+    os.makedirs(evdir, exist_ok=True)
+    with open(os.path.join(evdir, f"{prop}.json"), "w") as f:
         json.dump(ev, f, indent=1)
 
     print(f"[{prop}] {len(cids)} functions under contract, {obligations} obligations, {dis} discharged, "
